@@ -195,6 +195,13 @@ def frame_judge(i):
     return None if not diff else f"parse of input {i} left writes in shared objects: {diff[:4]}"
 
 
+def after_history(i, base):
+    """parse input i, then every input of the pool: the inputs whose outcome differs from their fresh-interpreter outcome"""
+    P = pool()
+    outcome(P[i][1], f"in{i}.h")
+    return [j for j in range(len(P)) if outcome(P[j][1], f"in{j}.h") != base[j]]
+
+
 _BASE = None
 
 
@@ -363,7 +370,7 @@ def run(tier):
         tw = chrun.run(__name__, "h_frame", [(0,)], timeout=60, globs=dict(g, TWIN=True), pool=pool_)
         chrun.record(ck, tw, "frame condition reachability twin", expect="refuted")
         rf = chrun.run(__name__, "h_frame", [(a,) for a in range(n)], timeout=120, globs=g, pool=pool_)
-        chrun.record(ck, rf, "(F) no parse leaves a write in any module- or class-level object", bound=f"{n} inputs x {len(shared_roots())} shared roots")
+        chrun.record(ck, rf, "(F) no parse leaves a write in any module- or class-level object (sufficient condition; a write counts as a violation when a later parse observes it)", bound=f"{n} inputs x {len(shared_roots())} shared roots")
         rh = chrun.run(__name__, "h_history", [(a,) for a in range(n)], timeout=(200 if tier == "quick" else 900), globs=g, pool=pool_)
         chrun.record(ck, rh, "(H) outcome(B) after A == outcome(B) first in a fresh interpreter, all ordered pairs", bound=f"{n} x {n} pairs")
         outer = [a for a in range(n) if P[a][0] == "ok"] if tier == "quick" else list(range(n))
@@ -384,9 +391,30 @@ def run(tier):
                 ch = Chooser(vals, prefix=())
                 i = ch.pick(n)
                 if fn is None:
-                    # run in a child: the parse under test may have damaged this process' shared state already
-                    body = ("from vf.props import c15\n" f"bad = c15.frame_judge({i})\nprint(bad)\nsys.exit(1 if bad else 0)\n")
+                    # run in a child: the parse under test may have damaged this process' shared state already.  A write to a shared
+                    # object is only the *sufficient* condition failing; it is a violation of the property when a later parse observes it
+                    body = ("from vf.props import c15\n" f"bad = c15.frame_judge({i})\nprint(bad)\nif not bad:\n    sys.exit(0)\n"
+                            f"base = c15.fresh_baselines(len(c15.pool()))\nobs = c15.after_history({i}, base)\nprint('later parses that observe it:', obs)\nsys.exit(1 if obs else 3)\n")
                     what = f"input {i}: {P[i][1][:80]!r}"
+                    p = ck.write_replay(body)
+                    r_ = subprocess.run([sys.executable, p], capture_output=True, text=True, timeout=900)
+                    ck.traces += 1
+                    if r_.returncode == 3:
+                        ck.undecided.append(f"frame condition: the parse of {what} writes to shared objects ({r_.stdout.strip().splitlines()[0][:200]}) but no later parse of the pool observes it; "
+                                            "histories longer than two parses are then not covered by the inductive argument")
+                        ck.exhaustive = False
+                        os.unlink(p)
+                        seen += 1
+                        if seen >= 3:
+                            break
+                        continue
+                    if r_.returncode != 1:
+                        raise HarnessError(f"frame counterexample did not reproduce: {msg}\n{(r_.stdout + r_.stderr)[-500:]}")
+                    ck.violation(f"(frame) {r_.stdout.strip().splitlines()[0][:300]}; {r_.stdout.strip().splitlines()[-1][:120]} [{what}]", p, key=dict(kind=name))
+                    seen += 1
+                    if seen >= 3:
+                        break
+                    continue
                 else:
                     j = ch.pick(n)
                     body = ("import json, os, tempfile\nfrom vf.props import c15\n" "base = c15.fresh_baselines(len(c15.pool()))\nfd, p = tempfile.mkstemp(); os.write(fd, json.dumps(base).encode()); os.close(fd)\n"
